@@ -361,7 +361,8 @@ def run(ctx):
     # (1) all ordered pairs of the core vocabulary
     n = len(core)
     core_pairs = [(i, j) for i in range(n) for j in range(n)]
-    res.exhaustive = True
+    res.exhaustive = False   # only stream (1), the core pairs, is exhaustive: said in `rule` and in the note below
+    res.notes.append("exhaustive sub-stream: all %d ordered pairs of the %d-record core vocabulary; every other stream is structured or sampled" % (len(core_pairs), n))
     # (2) sampled pairs of the extended vocabulary
     m = len(ext)
     per = max(1, budget // m)
